@@ -154,6 +154,14 @@ impl rcgen::RemoteKeyPair for SimSigner {
     }
 
     fn algorithm(&self) -> &'static rcgen::SignatureAlgorithm {
+        // Half of the simulated HSMs are configured by OID (the key's own bytes decide which):
+        // they look their algorithm up with `SignatureAlgorithm::from_oid`, as a KMS client
+        // that only knows the key's registered identifier would.
+        if self.key.raw_pub.iter().fold(0u8, |a, b| a ^ b) & 1 == 1 {
+            if let Ok(a) = rcgen::SignatureAlgorithm::from_oid(self.key.alg.sig_oid_arcs()) {
+                return a;
+            }
+        }
         sig_alg(self.key.alg)
     }
 }
